@@ -571,10 +571,13 @@ pub fn e2_spec(id: &str, tier: &str) -> Option<crate::e2::E2Spec> {
                 (progs::nested3(Kind::Fx), vec![vec![q(0)], vec![q(2)]]),
                 (progs::cyc2(Kind::Fb), vec![vec![q(0)], vec![q(1)]]),
                 (progs::lru_set().remove(0), vec![vec![q(0), q(4)], vec![q(1), q(2)]]),
+                (progs::flag_cycle(), vec![vec![q(0)], vec![q(0)]]),
             ];
             for (p, th) in progs_w {
                 let writes: Vec<(&str, Vec<Op>)> = if p.name.starts_with("lru") {
                     vec![("lrucap", vec![Op::LruCap(1)]), ("set", vec![Op::Set(0, 1)])]
+                } else if p.name.starts_with("flagcyc") {
+                    vec![("flag-off", vec![Op::Set(0, 0)])]
                 } else {
                     vec![("set", vec![Op::Set(0, 3)]), ("syn", vec![Op::Syn(ql::ex::Dur::Low)]), ("cancel", vec![Op::Cancel])]
                 };
@@ -592,22 +595,6 @@ pub fn e2_spec(id: &str, tier: &str) -> Option<crate::e2::E2Spec> {
                         bound: if quick { 1 } else { 2 },
                         oracle: Oracle::Writer,
                         writer: w,
-                    });
-                }
-            }
-            if quick {
-                for p in [progs::p3(1, 0, 1), progs::cyc2(Kind::Fx)] {
-                    let th = if p.name.starts_with("cyc") { vec![vec![q(0)], vec![q(1)]] } else { vec![vec![q(2)], vec![q(1)]] };
-                    scens.push(Scen {
-                        name: format!("{}-w-set-k2", p.name),
-                        prog: p,
-                        setup: vec![],
-                        threads: th,
-                        phase2_writes: vec![],
-                        phase2: false,
-                        bound: 2,
-                        oracle: Oracle::Writer,
-                        writer: vec![Op::Set(0, 3)],
                     });
                 }
             }
